@@ -1,5 +1,19 @@
-(* C17 — placeholder until the engine theorems are added below. *)
-From WF Require Import model.Base model.EngineBase model.Engine.
-Theorem C17_emit_dead_silent : forall t s, o_dead s = true -> emit t s = (Ok tt, s).
-Proof. intros t s H. unfold emit. now rewrite H. Qed.
-Print Assumptions C17_emit_dead_silent.
+(* C17 — in-memory record store vs the transactional store contract. Property theorems only. *)
+From WF Require Import model.Base model.Routing model.Stores proofs.StoresProofs.
+
+(* for EVERY sequence of Store, failing Store, Lookup, Latest, List, ListOutboxEvents and DeleteOutboxEvent operations of the
+   domain (a run ID keeps its workflow and foreign ID; offsets >= 0; outbox limit >= 1) the model of
+   adapters/memrecordstore answers exactly as the reference store (records in creation order, outbox oldest first) *)
+Theorem C17_refines : forall ops, sops_ok [] ops = true -> mem_run mstore0 ops = ref_run rstore0 ops.
+Proof. intros ops H. exact (stores_refine ops mstore0 rstore0 [] srel0 H). Qed.
+Print Assumptions C17_refines.
+
+(* List pages of the reference store: for every store content, filter combination (single and multi-value), order and
+   page size k > 0, the pages at offsets 0, k, 2k, ... concatenated are exactly the matching runs in creation order
+   (newest first when descending): nothing is missing, repeated or out of order *)
+Theorem C17_pages : forall (s : rstore) (wf : N) (f : sfilter) (desc : bool) (k n : nat),
+  (0 < k)%nat -> (length (rs_recs s) <= n * k)%nat ->
+  concat (map (fun i => match snd (ref_step s (SList wf (Z.of_nat (i * k)) (Z.of_nat k) desc f)) with ObList l => l | _ => [] end) (seq 0 n))
+  = (if desc then rev (filter (smatches wf f) (rs_recs s)) else filter (smatches wf f) (rs_recs s)).
+Proof. exact list_pages_partition. Qed.
+Print Assumptions C17_pages.
